@@ -168,12 +168,21 @@ def _word_guards(ctx, P, f):
             if Q.is_field_load(l, "struct.cjet_utf8_checker", "next_byte") is not None and r == ("const", 1) and pred == "eq":
                 enabled = True
                 continue
-            if l[0] == "op" and l[1] == "and" and l[2][0][0] == "load" and l[2][0][1][0] == "index" and l[2][1][0] == "const" and r[0] == "const":
-                w = l[2][0][1][3]
+            # literal: chain of (and const | add const) applied to the loaded word, compared with a constant
+            ops = []
+            x = l
+            okshape = r[0] == "const"
+            while okshape and x[0] == "op" and x[1] in ("and", "add") and len(x[2]) == 2 and x[2][1][0] == "const":
+                ops.append((x[1], x[2][1][1]))
+                x = x[2][0]
+            if okshape and ops and x[0] == "load" and x[1][0] == "index":
+                w = x[1][3]
                 if width is None:
                     width = w
                 bits = 8 * w
-                conj.append((l[2][1][1] & ((1 << bits) - 1), r[1] & ((1 << bits) - 1), pred))
+                m = (1 << bits) - 1
+                ops = [(o, c & m) for (o, c) in reversed(ops)]
+                conj.append((tuple(ops), r[1] & m, pred))
             else:
                 raise AnalysisBroken("%s: fast-path guard literal has an unrecognised shape: %s" % (f.key, fmt_atom(atom, pol)))
         out.append((enabled, conj))
@@ -185,28 +194,44 @@ def _solve(conj, width, trans, start):
     for (_, _, pred) in conj:
         if pred not in ("eq", "ne", "ugt", "uge", "ult", "ule"):
             raise AnalysisBroken("fast-path literal with signed predicate %s" % pred)
-    # DP state: (automaton state or None=rejected, tuple of tri-states)
-    cur = {(start, tuple(0 for _ in conj)): b""}
+    # DP state: (automaton state or None=rejected, per literal (tri-state, carries of its add operations))
+    def lane_ops(ops, lane):
+        return [(o, (c >> (8 * lane)) & 0xFF) for (o, c) in ops]
+    nadd = [sum(1 for (o, _) in ops if o == "add") for (ops, _, _) in conj]
+    cur = {(start, tuple((0, (0,) * n) for n in nadd)): b""}
     for lane in range(width):
         nxt = {}
-        lm = [((M >> (8 * lane)) & 0xFF, (K >> (8 * lane)) & 0xFF) for (M, K, _) in conj]
-        for (ast, tri), wit in cur.items():
+        lops = [lane_ops(ops, lane) for (ops, _, _) in conj]
+        lk = [(K >> (8 * lane)) & 0xFF for (_, K, _) in conj]
+        for (ast, lits), wit in cur.items():
             for b in range(256):
-                nt = []
-                for k, (m, kk) in enumerate(lm):
-                    x = b & m
-                    nt.append(tri[k] if x == kk else (1 if x > kk else -1))
+                nl = []
+                for k, ops in enumerate(lops):
+                    tri, carries = lits[k]
+                    v = b
+                    nc = []
+                    ci = 0
+                    for (o, c) in ops:
+                        if o == "and":
+                            v &= c
+                        else:
+                            sres = v + c + carries[ci]
+                            nc.append(sres >> 8)
+                            v = sres & 0xFF
+                            ci += 1
+                    nl.append((tri if v == lk[k] else (1 if v > lk[k] else -1), tuple(nc)))
                 if ast is None:
                     na = None
                 else:
                     tr = trans.get((ast, b))
                     na = tr[1] if (tr is not None and tr[0]) else None
-                key = (na, tuple(nt))
+                key = (na, tuple(nl))
                 if key not in nxt:
                     nxt[key] = wit + bytes([b])
         cur = nxt
         if len(cur) > 400000:
             raise AnalysisBroken("fast-path guard solution space too large")
+    cur = {(ast, tuple(t for (t, _) in lits)): wit for (ast, lits), wit in cur.items()}
     sat = 0
     bad = None
     for (ast, tri), wit in cur.items():
@@ -220,6 +245,14 @@ def _solve(conj, width, trans, start):
         if ast != start and bad is None:
             bad = wit
     return sat, bad, len(cur)
+
+
+def _fmt_lit(l):
+    ops, k, pred = l
+    e = "w"
+    for (o, c) in ops:
+        e = "(%s %s 0x%x)" % (e, "&" if o == "and" else "+", c)
+    return "%s %s 0x%x" % (e, pred, k)
 
 
 def fastpaths(ctx, P, trans, start):
@@ -249,11 +282,11 @@ def fastpaths(ctx, P, trans, start):
             ctx.ob("C18.3 R-FASTPATH", f, "skip-path#%d" % gi, ok,
                    ("the %d-bit fast path skips the word %s (bytes in memory order) although the byte-wise automaton does not accept "
                     "these bytes from the start state back to the start state: guard %s" %
-                    (8 * width, bad.hex() if bad else "?", " && ".join("(w & 0x%x) %s 0x%x" % (m, p, k) for (m, k, p) in conj)))
+                    (8 * width, bad.hex() if bad else "?", " && ".join(_fmt_lit(l) for l in conj)))
                    if (enabled and bad is not None) else
                    ("a skip path is taken without next_byte == 1" if not enabled else
                     "every word satisfying the guard is accepted start->start (%d literal(s))" % len(conj)),
-                   detail={"literals": ["(w & 0x%x) %s 0x%x" % (m, p, k) for (m, k, p) in conj], "dp_states": states})
+                   detail={"literals": [_fmt_lit(l) for l in conj], "dp_states": states})
     if n < 10:
         raise AnalysisBroken("fast-path skip paths found: %d" % n)
     ctx.floor("C18.3 R-FASTPATH", 10)
